@@ -420,6 +420,9 @@ def _mip_size_rule(ctx, blp):
             return tup(n["then"] if _bval(n["c"], env, lets) else n["else"], env, lets)
         if n.get("k") == "ret":
             return tup(n["e"], env, lets)
+        if n.get("k") == "match":
+            from .c10 import _match_arm
+            return tup(_match_arm(n, env, lets, 0), env, lets)
         if n.get("k") == "tup" and len(n["es"]) == 2:
             return tuple(_ival(e, env, lets) for e in n["es"])
         if n.get("k") == "path" and (n.get("res") or {}).get("local") in lets:
